@@ -407,9 +407,9 @@ class FaultWorld(World):
                 finally:
                     note("rx_end", world._rx_fd)
 
-            def send_continue(self):
+            def send_continue(self, *a, **kw):
                 note("send_continue", world.fd_of(self))
-                return HTTPChannel.send_continue(self)
+                return HTTPChannel.send_continue(self, *a, **kw)
 
             def write_soon(self, data):
                 if data:
@@ -2065,8 +2065,8 @@ def shape_audit(src_dir):
     worker-side send_continue() is not part of the comparison: it is read by detect_wc_close and given to the model."""
     def norm(key, toks):
         if key.endswith("HTTPChannel.service"):
-            return [t.replace("call:send_continue(do_close=False)", "call:send_continue()")
-                     .replace("call:send_continue(do_close=True)", "call:send_continue()") for t in toks]
+            return [t.replace("const:False call:send_continue(do_close=False)", "call:send_continue()")
+                     .replace("const:True call:send_continue(do_close=True)", "call:send_continue()") for t in toks]
         if key.endswith("HTTPChannel.send_continue"):
             return [t.replace("call:_flush_some(do_close=do_close)", "call:_flush_some()") for t in toks]
         if key.endswith("BaseWSGIServer.handle_accept"):
